@@ -1,0 +1,16 @@
+//go:build verif
+
+package autog
+
+import ig "github.com/nulab/autog/internal/graph"
+
+// VerifTraceFn, when set, receives the component graph at every phase boundary of Layout:
+// stage 0 is the state after pre-processing, stage k (1..5) the state after phase k and
+// stage 6 the state after post-processing. Only compiled with the verif build tag.
+var VerifTraceFn func(stage int, g *ig.DGraph)
+
+func verifTrace(stage int, g *ig.DGraph) {
+	if VerifTraceFn != nil {
+		VerifTraceFn(stage, g)
+	}
+}
